@@ -1,6 +1,7 @@
 package main
 
 import (
+	"os/exec"
 	"go.uber.org/zap/zaptest/observer"
 	"bytes"
 	"io"
@@ -348,6 +349,7 @@ func checkC04(c *Ctx) {
 		}
 	}
 	c04ObserverDrain(c)
+	c04FatalExit(c)
 	// several goroutines making the first use of one WithLazy logger: every entry arrives, with its context
 	runLazyOnce(c, "C04/", func(k string) bool { return k == "lazy/panic" || k == "lazy/entry-missing" || k == "lazy/context" })
 	c.Set("projected_interleavings", int64(len(keys)))
@@ -843,6 +845,88 @@ func c04ObserverDrain(c *Ctx) {
 		}
 		if bad != "" {
 			c.Violation("C04/entry-lost", "tee of two observer cores drained with TakeAll while 6 goroutines log: "+bad, map[string]interface{}{"scenario": "observer-drain"})
+			return
+		}
+		c.Add("traces_validated_against_impl", 1)
+	}
+}
+
+// ---- the process ends with a Fatal entry while goroutines log through a buffered file sink ----
+
+func init() { children["c04-fatal"] = c04FatalChild }
+
+// c04FatalChild: args = [file]. Four goroutines log through Lock(BufferedWriteSyncer(file)); after they are done
+// the main goroutine logs a Fatal entry (default action: exit 1).
+func c04FatalChild(args []string) {
+	f, err := os.OpenFile(args[0], os.O_CREATE|os.O_WRONLY|os.O_APPEND, 0o644)
+	if err != nil {
+		fmt.Println("HARNESS", err)
+		os.Exit(3)
+	}
+	b := &zapcore.BufferedWriteSyncer{WS: f, Size: 64 * 1024, FlushInterval: time.Hour}
+	lg := zap.New(zapcore.NewCore(c04Enc(), b, zapcore.DebugLevel))
+	var wg sync.WaitGroup
+	for g := 1; g <= 4; g++ {
+		wg.Add(1)
+		go func(g int) {
+			defer wg.Done()
+			l := lg.With(zap.Int("g", g))
+			for i := 1; i <= 20; i++ {
+				l.Info("step", zap.Int("i", i))
+			}
+		}(g)
+	}
+	wg.Wait()
+	lg.Fatal("giving up", zap.Int("g", 0))
+	os.Exit(7) // not reached
+}
+
+// c04FatalExit: whatever was accepted before the process ended with a Fatal entry is in the file, the Fatal entry
+// included, one intact line each (the IO core syncs its sink for entries above Error level before control is lost).
+func c04FatalExit(c *Ctx) {
+	dir, err := os.MkdirTemp(filepath.Join(Root, "out"), "c04fatal-")
+	if err != nil {
+		c.Inconclusive("tempdir: %v", err)
+		return
+	}
+	defer os.RemoveAll(dir)
+	exe, _ := os.Executable()
+	for r := 0; r < c.Pick(3, 20); r++ {
+		path := filepath.Join(dir, fmt.Sprintf("fatal-%d.log", r))
+		cmd := exec.Command(exe, "child", "c04-fatal", path)
+		out, _ := cmd.CombinedOutput()
+		if cmd.ProcessState == nil || cmd.ProcessState.ExitCode() != 1 {
+			c.Inconclusive("c04-fatal child ended with %v: %s", cmd.ProcessState, firstLines(string(out), 5))
+			return
+		}
+		data, _ := os.ReadFile(path)
+		lines := strings.Split(strings.TrimSuffix(string(data), "\n"), "\n")
+		seen := map[string]int{}
+		for i, l := range lines {
+			var m struct {
+				M string `json:"m"`
+				G int    `json:"g"`
+				I int    `json:"i"`
+			}
+			if err := json.Unmarshal([]byte(l), &m); err != nil {
+				c.Violation("C04/line-corrupt", fmt.Sprintf("process ending with a Fatal entry, buffered file sink: line %d of the file is not one entry: %q", i+1, l), map[string]interface{}{"scenario": "fatal-exit"})
+				return
+			}
+			seen[fmt.Sprintf("%s/%d/%d", m.M, m.G, m.I)]++
+		}
+		missing := []string{}
+		for g := 1; g <= 4; g++ {
+			for i := 1; i <= 20; i++ {
+				if seen[fmt.Sprintf("step/%d/%d", g, i)] != 1 {
+					missing = append(missing, fmt.Sprintf("g%d#%d(x%d)", g, i, seen[fmt.Sprintf("step/%d/%d", g, i)]))
+				}
+			}
+		}
+		if seen["giving up/0/0"] != 1 {
+			missing = append(missing, fmt.Sprintf("the Fatal entry (x%d)", seen["giving up/0/0"]))
+		}
+		if len(missing) > 0 {
+			c.Violation("C04/entry-lost", fmt.Sprintf("four goroutines log 20 entries each through a BufferedWriteSyncer over a file, then the process logs a Fatal entry and exits: the file holds %d of 81 lines; not exactly once: %v", len(lines), missing), map[string]interface{}{"scenario": "fatal-exit"})
 			return
 		}
 		c.Add("traces_validated_against_impl", 1)
